@@ -5,6 +5,8 @@
 //! `tlv`:      `msg <new|sorted|slice> <cow|str|ref|h> <tag:kind:payload,...|->`
 //!             (kinds: b/o = borrowed/owned bytes, m = message in slot <payload>, v = MessageView of that slot's encoding,
 //!              f = value whose rough_tlv_len reports <payload>, never encoded)
+//!             `msgrun <ctor> <vt> <L> <defect>`  the same on a generated list (`msgrun_items`: L pairs, empty values,
+//!              ascending tags, ONE defect at a chosen position) - the single-defect sweeps
 //!             `enc <slot> <iov|hcobs>`  (answers `calls <b|c><len>,...`: every `ZeroCopySink` call `encode` made on the
 //!              sink, in order, method + length, recorded by a pass-through sink wrapper; sink `hcobs` also `wire <hex>`,
 //!              the bytes the real `hcobs::Encoder` sink holds after `finish`)
@@ -1026,14 +1028,181 @@ impl TlvExec {
     }
 }
 
+/// The items of `msgrun <ctor> <vt> <L> <defect>`: `L` pairs with empty borrowed values and the
+/// strictly ascending tags `10 + 2j`, except for ONE defect:
+///   `-` none | `d<i>` the tags of pairs i and i+1 swapped (the only descent is at i) |
+///   `e<i>` pair i+1 carries the tag of pair i (equal tags: still sorted) |
+///   `f<i>:<len>` pair i is a value that reports `len` bytes and is never encoded (value type `h`)
+/// (the Lean driver builds the same list: `Driver/RoughTlv.lean`, `runItems`).
+pub fn msgrun_items(l: usize, defect: &str) -> Option<String> {
+    let mut tags: Vec<u32> = (0..l).map(|j| 10 + 2 * j as u32).collect();
+    let mut fake: Option<(usize, u128)> = None;
+    if defect != "-" {
+        let (kind, rest) = defect.split_at(1);
+        match kind {
+            "d" | "e" => {
+                let i: usize = rest.parse().ok()?;
+                if i + 1 >= l {
+                    return None;
+                }
+                if kind == "d" {
+                    tags.swap(i, i + 1);
+                } else {
+                    tags[i + 1] = tags[i];
+                }
+            }
+            "f" => {
+                let (i, len) = rest.split_once(':')?;
+                let i: usize = i.parse().ok()?;
+                let len: u128 = len.parse().ok()?;
+                if i >= l || len > u64::MAX as u128 {
+                    return None;
+                }
+                fake = Some((i, len));
+            }
+            _ => return None,
+        }
+    }
+    if l == 0 {
+        return Some("-".to_string());
+    }
+    let mut out = String::with_capacity(12 * l);
+    for (j, t) in tags.iter().enumerate() {
+        if j > 0 {
+            out.push(',');
+        }
+        match fake {
+            Some((i, len)) if i == j => out.push_str(&format!("{}:f:{}", t, len)),
+            _ => out.push_str(&format!("{}:b:-", t)),
+        }
+    }
+    Some(out)
+}
+
 impl Exec for TlvExec {
     fn step(&mut self, w: &[&str]) -> StepOut {
         match w {
+            ["msgrun", ctor, vt, l, defect] => {
+                let Ok(l) = l.parse::<usize>() else { return StepOut::bad() };
+                if l > 100_000 || (defect.starts_with('f') && *vt != "h") {
+                    return StepOut::bad();
+                }
+                let Some(items) = msgrun_items(l, defect) else { return StepOut::bad() };
+                let mut so = self.do_msg(ctor, vt, &items);
+                so.tags.push(format!("msgrun_{}_{}", ctor, &defect[..1]));
+                so
+            }
             ["msg", ctor, vt, items] => self.do_msg(ctor, vt, items),
             ["enc", slot, sink] => self.do_enc(slot, sink),
             _ => StepOut::bad(),
         }
     }
+}
+
+/// Pair counts of the single-defect sweeps: everything small, then the neighbourhoods of the powers
+/// of two (block sizes of any blocked / unrolled / vectorised "is it sorted" scan).
+fn sweep_lengths(thorough: bool) -> Vec<usize> {
+    let mut v: Vec<usize> = (2..=40).collect();
+    v.extend(63..=67);
+    v.extend(127..=131);
+    v.extend(255..=258);
+    v.extend(1023..=1026);
+    if thorough {
+        v.extend(41..=62);
+        v.extend(68..=126);
+        v.extend(191..=194);
+        v.extend(511..=514);
+        v.extend(2047..=2050);
+        v.extend(4095..=4098);
+    }
+    v
+}
+
+/// SINGLE-DEFECT SWEEP (track gen3): for every pair count `L` of `sweep_lengths` and EVERY position
+/// `i`, `new_from_sorted` on a list that is sorted except for one descent at `i` (must be rejected,
+/// with that witness); plus, per `L`: the sorted list, equal neighbours at a few positions, the
+/// sorting constructors on a few one-descent lists, and (value type `h`) one value of 2^31 bytes /
+/// of 2^31 - 1 bytes at every position (a few positions for `L` > 131).  Values are empty, so a case
+/// costs `O(L)` per op on both sides.
+fn single_defect_sweep(thorough: bool) -> Vec<Vec<String>> {
+    let mut cases = Vec::new();
+    let vts = ["cow", "h", "ref", "str"];
+    let mut rot = 0usize;
+    for l in sweep_lengths(thorough) {
+        let mut ops: Vec<String> = Vec::new();
+        let cut = |ops: &mut Vec<String>, cases: &mut Vec<Vec<String>>, force: bool| {
+            if (ops.len() >= 160 || force) && !ops.is_empty() {
+                cases.push(std::mem::take(ops));
+            }
+        };
+        ops.push(format!("msgrun sorted {} {} -", vts[l % 4], l));
+        if l <= 40 {
+            // small enough to encode and view as well
+            ops.push("enc 0 iov".into());
+        }
+        for i in 0..l - 1 {
+            rot += 1;
+            ops.push(format!("msgrun sorted {} {} d{}", vts[rot % 4], l, i));
+            cut(&mut ops, &mut cases, false);
+        }
+        cut(&mut ops, &mut cases, true);
+        let some_pos: Vec<usize> = {
+            let mut p = vec![0usize, 1, l / 2, l - 2];
+            p.extend((1..=l / 64).flat_map(|k| [64 * k - 1, 64 * k]));
+            p.retain(|i| i + 1 < l);
+            p.sort_unstable();
+            p.dedup();
+            p
+        };
+        for &i in &some_pos {
+            rot += 1;
+            ops.push(format!("msgrun sorted {} {} e{}", vts[rot % 4], l, i));
+            if l <= 258 {
+                ops.push(format!("msgrun {} {} {} d{}", if rot % 2 == 0 { "new" } else { "slice" }, vts[rot % 4], l, i));
+            }
+        }
+        cut(&mut ops, &mut cases, true);
+        let fake_pos: Vec<usize> = if l <= 131 { (0..l).collect() } else { vec![0, 1, 63, 64, 65, l / 2, l - 2, l - 1] };
+        for &i in &fake_pos {
+            rot += 1;
+            let ctor = ["sorted", "new", "slice"][rot % 3];
+            ops.push(format!("msgrun {} h {} f{}:2147483648", ctor, l, i));
+            if rot % 4 == 0 {
+                ops.push(format!("msgrun {} h {} f{}:2147483647", ctor, l, i));
+            }
+            cut(&mut ops, &mut cases, false);
+        }
+        cut(&mut ops, &mut cases, true);
+    }
+    cases
+}
+
+/// A random point of the same space: any `L` up to 1100 (thorough: 5000), any position.
+fn single_defect_random(rng: &mut Rng, thorough: bool) -> Vec<String> {
+    let mut ops = Vec::new();
+    let top = if thorough { 5000 } else { 1100 };
+    for _ in 0..rng.range(1, 6) {
+        let l = match rng.below(4) {
+            0 => rng.range(2, 70),
+            1 => (1u64 << rng.range(1, if thorough { 12 } else { 10 })) + rng.below(4),
+            _ => rng.range(2, top),
+        } as usize;
+        let l = l.max(2);
+        let i = match rng.below(3) {
+            0 => rng.below(l as u64 - 1) as usize,
+            1 => (l - 2).saturating_sub(rng.below(4) as usize),
+            _ => ((rng.below(l as u64) as usize) & !63usize).saturating_sub(rng.below(2) as usize).min(l - 2),
+        };
+        let vt = *rng.pick(&["cow", "h", "ref", "str"]);
+        match rng.below(8) {
+            0 => ops.push(format!("msgrun sorted {} {} -", vt, l)),
+            1 => ops.push(format!("msgrun sorted {} {} e{}", vt, l, i)),
+            2 if l <= 300 => ops.push(format!("msgrun {} {} {} d{}", rng.pick(&["new", "slice"]), vt, l, i)),
+            3 => ops.push(format!("msgrun {} h {} f{}:{}", rng.pick(&["new", "sorted", "slice"]), l, i, 2147483647u64 + rng.below(2))),
+            _ => ops.push(format!("msgrun sorted {} {} d{}", vt, l, i)),
+        }
+    }
+    ops
 }
 
 /// What the generator remembers about the slots it has produced.
@@ -1153,10 +1322,14 @@ impl Family for TlvFamily {
             }
             cases.push(ops);
         }
+        cases.extend(single_defect_sweep(thorough));
         cases
     }
 
     fn gen_case(&self, rng: &mut Rng, _idx: u64, thorough: bool) -> Vec<String> {
+        if rng.chance(1, 25) {
+            return single_defect_random(rng, thorough);
+        }
         let mut ops = Vec::new();
         let mut slots: Vec<GenSlot> = Vec::new();
         let nmsgs = rng.range(1, if thorough { 8 } else { 5 });
